@@ -442,6 +442,9 @@ struct Right { template <class T> T operator()(const T&, const T& b) const { ret
 static bool isGenericFun(const std::string& fn) {
   return fn == "gsum" || fn == "gprod" || fn == "gmin" || fn == "gmax" || fn == "gxor" || fn == "left" || fn == "right";
 }
+// generic functors offered for the container views (see callRed / callColl)
+static bool isVGeneric(const std::string& fn) { return fn == "gmin" || fn == "gmax" || fn == "left" || fn == "right"; }
+static bool isKGeneric(const std::string& fn) { return fn == "gsum" || fn == "gprod" || fn == "left" || fn == "right"; }
 // the named reduction a generic functor computes
 static std::string plainFun(const std::string& fn) {
   if (fn == "gsum") return "sum";
@@ -713,8 +716,25 @@ std::vector<T> callRed(CC& cc, const std::string& fn, const std::string& form, s
     cc.template allreduce<F>(in.data(), out.data(), n);
     return out;
   }
-  // MPIData based forms: vector<T> when T is intrinsic and F one of the four functors with a predefined MPI_Op
-  // (Generic_MPI_Op<container, F> exists only for those), a single scalar otherwise
+  // container forms with a generic functor: std::vector<T> handed to allreduce(Type&&) / iallreduce; MPI reduces the
+  // vector's entries, so the MPI_Op has to be the one for (T, F)
+  if (form == "vrv" || form == "viio" || form == "viip") {
+    // (only the generic functors that can also be applied to two std::vector objects: with the others the call does
+    // not compile on a tree without fixes/C07_reduce_container_op.patch, where the op is instantiated for the container)
+    constexpr bool genericF = std::is_same_v<F, GMin> || std::is_same_v<F, GMax> || std::is_same_v<F, Left> || std::is_same_v<F, Right>;
+    if constexpr (!genericF) throw Unsupported{};
+    else {
+      if ((int)in.size() != n || (int)out.size() != n) throw Unsupported{};
+      if (form == "vrv") {
+        if constexpr (isMpi) return cc.template allreduce<F>(std::move(in));
+        else throw Unsupported{};
+      }
+      if (form == "viio") return cc.template iallreduce<F>(std::move(in), std::move(out)).get();
+      return cc.template iallreduce<F>(std::move(in)).get();
+    }
+  }
+  // MPIData based forms: vector<T> when T is intrinsic and F one of the four functors with a predefined MPI_Op,
+  // a single scalar otherwise
   constexpr bool named = std::is_same_v<F, std::plus<T>> || std::is_same_v<F, std::multiplies<T>> ||
                          std::is_same_v<F, Dune::Min<T>> || std::is_same_v<F, Dune::Max<T>>;
   constexpr bool vec = intr && named;
@@ -740,6 +760,21 @@ std::vector<T> callRed(CC& cc, const std::string& fn, const std::string& form, s
   throw Unsupported{};
 }
 
+// a FieldVector object handed to allreduce(Type&&) / iallreduce: MPIData views it as a container of its entries, the
+// functor F is one on the entries
+template <class FVT, class F, class CC>
+std::vector<FVT> callRedK(CC& cc, const std::string& form, std::vector<FVT> in, std::vector<FVT> out, int n) {
+  constexpr bool isMpi = std::is_same_v<CC, MpiComm>;
+  if (n != 1 || in.size() != 1 || out.size() != 1) throw Unsupported{};
+  if (form == "krv") {
+    if constexpr (isMpi) { out[0] = cc.template allreduce<F>(FVT(in[0])); return out; }
+    else throw Unsupported{};
+  }
+  if (form == "kiio") { FVT o = out[0]; out[0] = cc.template iallreduce<F>(FVT(in[0]), std::move(o)).get(); return out; }
+  if (form == "kiip") { out[0] = cc.template iallreduce<F>(FVT(in[0])).get(); return out; }
+  throw Unsupported{};
+}
+
 template <class T, class CC>
 std::vector<T> callColl(CC& cc, const std::string& op, const Local& L) {
   constexpr bool isMpi = std::is_same_v<CC, MpiComm>;
@@ -748,6 +783,24 @@ std::vector<T> callColl(CC& cc, const std::string& op, const Local& L) {
   std::vector<int> lens = L.lens, displs = L.displs;
   int n = L.n, root = L.root;
   auto ok = [](int rc) { if (rc != 0) throw std::runtime_error("collective returned an error code"); };
+  if (base == "red" && (form == "krv" || form == "kiio" || form == "kiip")) {
+    if constexpr (std::is_same_v<T, FV3>) {
+      const std::string fn = funOf(op);
+      bool named = fn == "sum" || fn == "prod" || fn == "min" || fn == "max";
+      if (!named && !isKGeneric(fn)) throw Unsupported{};
+      std::vector<T> res;
+      if (!withFun<int>(fn, [&](auto tag) {
+            using F = typename decltype(tag)::type;
+            // typed user functors on the entries, and generic ones that cannot be applied to two FieldVector objects,
+            // compile only with fixes/C07_reduce_container_op.patch
+            if constexpr (std::is_same_v<F, First> || std::is_same_v<F, std::bit_xor<int>> || std::is_same_v<F, std::bit_xor<>> ||
+                          std::is_same_v<F, GMin> || std::is_same_v<F, GMax>) throw Unsupported{};
+            else res = callRedK<T, F>(cc, form, std::move(in), std::move(out), n);
+          }))
+        throw Unsupported{};
+      return res;
+    } else throw Unsupported{};
+  }
   if (base == "red") {
     std::vector<T> res;
     if (!withFun<T>(funOf(op), [&](auto tag) {
@@ -1634,7 +1687,7 @@ static long g_longLeft = -1;
 
 // steps of a history are generated with some choices fixed: element type, reduction functor ("" = free), kind of
 // collective ("red", "xfer" = anything but a reduction, "" = free); no long reductions inside histories
-struct Force { std::string ty, fn, base; };
+struct Force { std::string ty, fn, base; bool kform = false; };
 static std::string genColl(Rng& g, int P, const Force* force = nullptr) {
   Case k;
   k.comm = g.below(10) < 6 ? "world" : (g.coin() ? "seq" : "self");
@@ -1677,10 +1730,18 @@ static std::string genColl(Rng& g, int P, const Force* force = nullptr) {
     if (!light && (intr || trueScalar)) { forms.push_back("iio"); forms.push_back("iip"); if (!seq) forms.push_back("rv"); }
     if (light) forms = {"sc", "ip", "io"};
     if (light && isGenericFun(fn)) forms = {"ip", "io"};
+    // container views: a vector<T> with a generic functor; a FieldVector object reduced entry by entry (functor on int)
+    if (!light && isVGeneric(fn)) { forms.push_back("viio"); forms.push_back("viip"); if (!seq) forms.push_back("vrv"); }
+    bool kform = (force && force->kform) || (!force && !forceNc && k.ty == "fv3" && g.coin(1, 4));
+    if (kform) {
+      if (!isGenericFun(fn)) fn = g.pick(std::vector<std::string>{"sum", "prod", "min", "max"});
+      forms = {"kiio", "kiip"};
+      if (!seq) forms.push_back("krv");
+    }
     form = g.pick(forms);
     bool namedFn = fn == "sum" || fn == "prod" || fn == "min" || fn == "max";
-    if (form == "sc" || (!(intr && namedFn) && (form == "iio" || form == "iip" || form == "rv"))) k.n = 1;
-    if (form == "iio" || form == "iip" || form == "rv") k.pad = 0;
+    if (form == "sc" || (!(intr && namedFn) && (form == "iio" || form == "iip" || form == "rv")) || form[0] == 'k') k.n = 1;
+    if (form == "iio" || form == "iip" || form == "rv" || form[0] == 'k' || form[0] == 'v') k.pad = 0;
     k.op = "red." + fn + "." + form;
     const std::string pf = plainFun(fn);
     std::string purpose = (pf == "sum" || pf == "prod" || pf == "xor" || pf == "aff") ? pf : "any";
@@ -1848,6 +1909,10 @@ static std::string genHist(Rng& g, int P) {
     auto tys = shuffled(g, typesOfGeneric(fn));
     for (int i = 0; i < k; ++i) { Force f{tys[i % tys.size()], fn, "red"}; steps.push_back(genColl(g, P, &f)); }
     if (g.coin(1, 3)) { Force f{tys[0], fn, "red"}; steps.push_back(genColl(g, P, &f)); }  // and the first type once more
+    if (isKGeneric(fn) && g.coin(1, 2)) {  // and a FieldVector<int,3> object reduced entry by entry with the same functor (element type int)
+      Force f{"fv3", fn, "red", true};
+      steps.insert(steps.begin() + (long)g.below(steps.size() + 1), genColl(g, P, &f));
+    }
   } else if (mode == 1) {
     static const std::vector<std::string> UT = {"big96", "big40", "fv3", "pair", "pairlc", "pairis", "llong", "int"};
     std::string ty = g.pick(UT);
@@ -1885,8 +1950,14 @@ static std::string gen(Rng& g, long i, const Args& a) {
   MPI_Comm_size(MPI_COMM_WORLD, &P);
   const std::vector<std::string>& TM = TMAP_TYPES;
   if (g_longLeft < 0) g_longLeft = 10 + a.cases / 300;
-  if (i < (long)TM.size()) return tmapLine(TM[i], 1 + (int)(i % 3));
-  if (i == (long)TM.size()) return "misc np=" + std::to_string(P);
+  if (i == 0) {  // the datatypes of all element types, decoded one after the other in this process: as one history (a
+                 // failure that depends on the order replays), then one by one
+    std::string line = "hist np=" + std::to_string(P) + " : ";
+    for (size_t j = 0; j < TM.size(); ++j) line += (j ? ";" : "") + tmapLine(TM[j], 1 + (int)(j % 3));
+    return line;
+  }
+  if (i <= (long)TM.size()) return tmapLine(TM[i - 1], 1 + (int)((i - 1) % 3));
+  if (i == (long)TM.size() + 1) return "misc np=" + std::to_string(P);
   int w = (int)g.below(100);
   if (w < 1) return "misc np=" + std::to_string(P);
   if (w < 3) return tmapLine(g.pick(TM), (int)g.range(1, 4));
